@@ -1204,3 +1204,1048 @@ Proof.
   - split; [discriminate|]. split; [lia|]. split; [discriminate|].
     split; [right; reflexivity|]. cbn. split; [lia|]. intros _ _ _. reflexivity.
 Qed.
+
+(* ================================================================== *)
+(* 8. The window invariant over the whole node                          *)
+(* ================================================================== *)
+
+Definition PrsInv (m : list (N * progress)) : Prop := Forall (fun kp => PrInv (snd kp)) m.
+Definition RInv (r : raft) : Prop := PrsInv (t_progress (r_prs r)).
+
+Lemma pget_PrInv m id p : PrsInv m -> pget m id = Some p -> PrInv p.
+Proof.
+  induction m as [|[k q] t IH]; cbn [pget]; [discriminate|].
+  intros H. inversion H; subst. destruct (k =? id).
+  - intros E; inversion E; subst; assumption.
+  - apply IH; assumption.
+Qed.
+
+Lemma pput_PrsInv m id p : PrsInv m -> PrInv p -> PrsInv (pput m id p).
+Proof.
+  intros H Hp. induction m as [|[k q] t IH]; cbn [pput].
+  - constructor; [exact Hp|constructor].
+  - inversion H; subst. destruct (id <? k); [constructor; assumption|].
+    destruct (id =? k); [constructor; assumption|].
+    constructor; [assumption|apply IH; assumption].
+Qed.
+
+Lemma pdel_PrsInv m id : PrsInv m -> PrsInv (pdel m id).
+Proof.
+  intros H. induction m as [|[k q] t IH]; cbn [pdel]; [constructor|].
+  inversion H; subst. destruct (k =? id); [apply IH; assumption|].
+  constructor; [assumption|apply IH; assumption].
+Qed.
+
+Lemma PrsInv_map (g : N * progress -> progress) m :
+  (forall kp, PrInv (snd kp) -> PrInv (g kp)) ->
+  PrsInv m -> PrsInv (map (fun kp => (fst kp, g kp)) m).
+Proof.
+  intros Hg H. induction H as [|kp t Hk Ht IH]; cbn [map]; constructor; [|exact IH].
+  cbn [snd]. apply Hg. exact Hk.
+Qed.
+
+Lemma get_pr_PrInv r id p : RInv r -> get_pr r id = Some p -> PrInv p.
+Proof. unfold RInv, get_pr. apply pget_PrInv. Qed.
+
+Lemma get_pr_PrInv' r id p : get_pr r id = Some p -> RInv r -> PrInv p.
+Proof. intros E H. eapply get_pr_PrInv; eassumption. Qed.
+
+Lemma put_pr_RInv r id p : RInv r -> PrInv p -> RInv (put_pr r id p).
+Proof. unfold RInv, put_pr. cbn. apply pput_PrsInv. Qed.
+
+(* a state with the same progress map *)
+Lemma RInv_same r r' : t_progress (r_prs r') = t_progress (r_prs r) -> RInv r -> RInv r'.
+Proof. unfold RInv. intros ->. exact (fun H => H). Qed.
+
+Create HintDb rinv.
+#[export] Hint Resolve PrInv_pr_new PrInv_set_matched PrInv_set_next_idx PrInv_set_paused
+  PrInv_set_pending_snapshot PrInv_set_pending_request_snapshot PrInv_set_recent_active
+  PrInv_set_commit_group_id PrInv_set_committed_index PrInv_reset_state PrInv_pr_reset
+  PrInv_become_probe PrInv_become_replicate PrInv_become_snapshot PrInv_snapshot_failure
+  PrInv_resume PrInv_pause PrInv_optimistic_update PrInv_maybe_update PrInv_update_committed
+  PrInv_maybe_decr_to get_pr_PrInv' put_pr_RInv : rinv.
+
+Lemma maybe_update_eq_PrInv p n p' b : maybe_update p n = (p', b) -> PrInv p -> PrInv p'.
+Proof. intros E H. pose proof (PrInv_maybe_update p n H) as K. rewrite E in K. exact K. Qed.
+
+Lemma maybe_decr_to_eq_PrInv p a b c p' d :
+  maybe_decr_to p a b c = (p', d) -> PrInv p -> PrInv p'.
+Proof. intros E H. pose proof (PrInv_maybe_decr_to p a b c H) as K. rewrite E in K. exact K. Qed.
+
+#[export] Hint Resolve maybe_update_eq_PrInv maybe_decr_to_eq_PrInv : rinv.
+
+Ltac rinv_frame :=
+  match goal with
+  | H : RInv ?r |- RInv _ => solve [apply (RInv_same r); [reflexivity|exact H]]
+  end.
+#[export] Hint Extern 6 (RInv _) => rinv_frame : rinv.
+
+Ltac crush_step H :=
+  match type of H with
+  | Ok _ = Ok _ => inversion H; subst; clear H
+  | Panic _ = Ok _ => discriminate H
+  | bind _ _ = Ok _ =>
+      let x := fresh "x" in let Hx := fresh "Hx" in
+      apply bind_ok in H; destruct H as (x & Hx & H)
+  | (if ?c then _ else _) = _ => destruct c eqn:?; cbv beta iota in H
+  | (match ?x with _ => _ end) = _ => destruct x eqn:?; cbv beta iota in H
+  end.
+
+Ltac crush H := repeat (crush_step H).
+Ltac rinv := eauto 10 with rinv nocore.
+
+Lemma send_RInv r m r' : send r m = Ok r' -> RInv r -> RInv r'.
+Proof. unfold send. intros H HI. inv_bind H. inversion H; subst. rinv. Qed.
+#[export] Hint Resolve send_RInv : rinv.
+
+Lemma maybe_send_append_RInv r to pr ae r' pr' b :
+  maybe_send_append r to pr ae = Ok (r', pr', b) -> RInv r -> RInv r' /\ (PrInv pr -> PrInv pr').
+Proof.
+  intros H HI. split; [|intros Hp; eapply maybe_send_append_PrInv; eassumption].
+  destruct (maybe_send_append_cases _ _ _ _ _ _ _ H) as [(_ & -> & _)|(_ & _ & C)]; [exact HI|].
+  destruct C as [(_ & s & _ & _ & -> & _)|[(_ & _ & t & ents & _ & _ & _ & -> & _)|
+                 (_ & _ & _ & t & ents & msgs' & _ & _ & _ & _ & ->)]]; rinv.
+Qed.
+
+Lemma maybe_send_append_RInv1 r to pr ae r' pr' b :
+  maybe_send_append r to pr ae = Ok (r', pr', b) -> RInv r -> RInv r'.
+Proof. intros H HI. apply (maybe_send_append_RInv _ _ _ _ _ _ _ H HI). Qed.
+Lemma maybe_send_append_RInv2 r to pr ae r' pr' b :
+  maybe_send_append r to pr ae = Ok (r', pr', b) -> PrInv pr -> PrInv pr'.
+Proof. intros H HI. eapply maybe_send_append_PrInv; eassumption. Qed.
+#[export] Hint Resolve maybe_send_append_RInv1 maybe_send_append_RInv2 : rinv.
+
+Lemma send_append_to_RInv r to r' : send_append_to r to = Ok r' -> RInv r -> RInv r'.
+Proof. unfold send_append_to. intros H HI. crush H. rinv. Qed.
+#[export] Hint Resolve send_append_to_RInv : rinv.
+
+Lemma send_append_aggressively_loop_RInv fuel : forall r to pr r' pr',
+  send_append_aggressively_loop fuel r to pr = Ok (r', pr') -> RInv r -> PrInv pr ->
+  RInv r' /\ PrInv pr'.
+Proof.
+  induction fuel as [|f IH]; intros r to pr r' pr' H HI Hp; cbn [send_append_aggressively_loop] in H;
+    [discriminate|].
+  inv_bind H. destruct x as [[r1 pr1] b]. destruct b.
+  - eapply IH; [exact H| |]; rinv.
+  - inversion H; subst. split; rinv.
+Qed.
+
+Lemma send_append_aggressively_RInv r to r' :
+  send_append_aggressively r to = Ok r' -> RInv r -> RInv r'.
+Proof.
+  unfold send_append_aggressively. intros H HI.
+  destruct (get_pr r to) as [pr|] eqn:E; [|discriminate].
+  inv_bind H. destruct x as [r1 pr1]. inversion H; subst.
+  destruct (send_append_aggressively_loop_RInv _ _ _ _ _ _ Hx HI) as [A B]; rinv.
+Qed.
+#[export] Hint Resolve send_append_aggressively_RInv : rinv.
+
+Lemma send_heartbeat_RInv r to pr ctx r' : send_heartbeat r to pr ctx = Ok r' -> RInv r -> RInv r'.
+Proof. unfold send_heartbeat. intros H HI. rinv. Qed.
+#[export] Hint Resolve send_heartbeat_RInv : rinv.
+
+Lemma for_each_peer_RInv (f : raft -> N -> Res raft) :
+  (forall r id r', f r id = Ok r' -> RInv r -> RInv r') ->
+  forall ids self r r', for_each_peer ids self f r = Ok r' -> RInv r -> RInv r'.
+Proof.
+  intros Hf ids self. induction ids as [|id rest IH]; intros r r' H HI; cbn [for_each_peer] in H.
+  - inversion H; subst. exact HI.
+  - destruct (id =? self); [eapply IH; eassumption|].
+    inv_bind H. eapply IH; [exact H|]. eapply Hf; eassumption.
+Qed.
+
+Lemma bcast_append_RInv r r' : bcast_append r = Ok r' -> RInv r -> RInv r'.
+Proof. unfold bcast_append. apply for_each_peer_RInv. intros; rinv. Qed.
+#[export] Hint Resolve bcast_append_RInv : rinv.
+
+Lemma bcast_heartbeat_with_ctx_RInv r ctx r' :
+  bcast_heartbeat_with_ctx r ctx = Ok r' -> RInv r -> RInv r'.
+Proof.
+  unfold bcast_heartbeat_with_ctx. apply for_each_peer_RInv.
+  intros r0 id r1 H HI. destruct (get_pr r0 id); [rinv|discriminate].
+Qed.
+#[export] Hint Resolve bcast_heartbeat_with_ctx_RInv : rinv.
+
+Lemma bcast_heartbeat_RInv r r' : bcast_heartbeat r = Ok r' -> RInv r -> RInv r'.
+Proof. unfold bcast_heartbeat. rinv. Qed.
+#[export] Hint Resolve bcast_heartbeat_RInv : rinv.
+
+Lemma maybe_commit_RInv r r' b : maybe_commit r = Ok (r', b) -> RInv r -> RInv r'.
+Proof. unfold maybe_commit. intros H HI. crush H; rinv. Qed.
+#[export] Hint Resolve maybe_commit_RInv : rinv.
+
+Lemma maybe_increase_uncommitted_size_RInv r ents r' ok :
+  maybe_increase_uncommitted_size r ents = (r', ok) -> RInv r -> RInv r'.
+Proof.
+  intros H HI. destruct (uncommitted_effect _ _ _ _ H) as (A & B).
+  destruct ok; [destruct (B eq_refl) as [(_ & ->)|(_ & ->)]; rinv|rewrite (A eq_refl); exact HI].
+Qed.
+#[export] Hint Resolve maybe_increase_uncommitted_size_RInv : rinv.
+
+Lemma reduce_uncommitted_size_RInv r ents : RInv r -> RInv (reduce_uncommitted_size r ents).
+Proof.
+  intros HI. destruct (reduce_uncommitted_spec r ents) as (_ & _ & _ & [E|E] & _); rewrite E; rinv.
+Qed.
+#[export] Hint Resolve reduce_uncommitted_size_RInv : rinv.
+
+Lemma append_entry_RInv r es r' b : append_entry r es = Ok (r', b) -> RInv r -> RInv r'.
+Proof.
+  unfold append_entry. intros H HI.
+  destruct (maybe_increase_uncommitted_size r es) as [r1 ok] eqn:E.
+  assert (RInv r1) by rinv. crush H; rinv.
+Qed.
+#[export] Hint Resolve append_entry_RInv : rinv.
+
+Lemma reset_RInv r t r' : reset r t = Ok r' -> RInv r -> RInv r'.
+Proof.
+  unfold reset. intros H HI.
+  set (r0 := if negb (r_term r =? t) then r <| r_term := t |> <| r_vote := INVALID_ID |> else r) in H.
+  assert (H0 : RInv r0) by (subst r0; destruct (negb (r_term r =? t)); rinv).
+  clearbody r0. destruct (r_draws r0) as [|d ds]; [discriminate|]. inversion H; subst. clear H.
+  unfold RInv. cbn.
+  apply (PrsInv_map (fun kp => if fst kp =? r_id r0 then _ else _)); [|exact H0].
+  intros kp Hk. destruct (fst kp =? r_id r0); rinv.
+Qed.
+#[export] Hint Resolve reset_RInv : rinv.
+
+Lemma become_follower_RInv r t l r' : become_follower r t l = Ok r' -> RInv r -> RInv r'.
+Proof. unfold become_follower. intros H HI. crush H. assert (RInv x) by rinv. rinv. Qed.
+#[export] Hint Resolve become_follower_RInv : rinv.
+
+Lemma become_candidate_RInv r r' : become_candidate r = Ok r' -> RInv r -> RInv r'.
+Proof. unfold become_candidate. intros H HI. crush H. assert (RInv x) by rinv. rinv. Qed.
+#[export] Hint Resolve become_candidate_RInv : rinv.
+
+Lemma become_pre_candidate_RInv r r' : become_pre_candidate r = Ok r' -> RInv r -> RInv r'.
+Proof. unfold become_pre_candidate. intros H HI. crush H. rinv. Qed.
+#[export] Hint Resolve become_pre_candidate_RInv : rinv.
+
+Lemma become_leader_RInv r r' : become_leader r = Ok r' -> RInv r -> RInv r'.
+Proof.
+  unfold become_leader. intros H HI.
+  destruct (role_eqb (r_state r) Follower); [discriminate|].
+  inv_bind H. assert (Hx0 : RInv x) by rinv.
+  match type of H with (if ?c then _ else _) = _ => destruct c end; [discriminate|].
+  match type of H with (match ?g with _ => _ end) = _ => destruct g as [pr|] eqn:Eg end; [|discriminate].
+  inv_bind H. destruct x0 as [r6 ok]. destruct ok; [|discriminate]. inversion H; subst.
+  eapply append_entry_RInv; [exact Hx1|].
+  assert (Hp : PrInv pr) by (eapply pget_PrInv; [exact Hx0|exact Eg]).
+  unfold RInv. cbn. apply pput_PrsInv; [exact Hx0|rinv].
+Qed.
+#[export] Hint Resolve become_leader_RInv : rinv.
+
+Lemma poll_gen_RInv rc r from v r' res :
+  (forall r r', rc r = Ok r' -> RInv r -> RInv r') ->
+  poll_gen rc r from v = Ok (r', res) -> RInv r -> RInv r'.
+Proof.
+  unfold poll_gen. intros Hrc H HI.
+  set (r0 := r <| r_prs := (r_prs r) <| t_votes := _ |> |>) in H.
+  assert (H0 : RInv r0) by (subst r0; rinv). clearbody r0.
+  crush H; rinv.
+Qed.
+
+Lemma send_vote_requests_RInv ids : forall r vm t c ct tr r',
+  send_vote_requests ids r vm t c ct tr = Ok r' -> RInv r -> RInv r'.
+Proof.
+  induction ids as [|id rest IH]; intros r vm t c ct tr r' H HI; cbn [send_vote_requests] in H.
+  - inversion H; subst; exact HI.
+  - destruct (id =? r_id r); [eapply IH; eassumption|].
+    inv_bind H. inv_bind H. eapply IH; [exact H|]. rinv.
+Qed.
+#[export] Hint Resolve send_vote_requests_RInv : rinv.
+
+Lemma campaign_real_RInv tr r r' : campaign_real tr r = Ok r' -> RInv r -> RInv r'.
+Proof.
+  unfold campaign_real. intros H HI. inv_bind H. inv_bind H. destruct x0 as [r2 res].
+  assert (RInv r2).
+  { eapply poll_gen_RInv; [|exact Hx0|rinv]. intros; discriminate. }
+  crush H; rinv.
+Qed.
+#[export] Hint Resolve campaign_real_RInv : rinv.
+
+Lemma poll_RInv r from v r' res : poll r from v = Ok (r', res) -> RInv r -> RInv r'.
+Proof. unfold poll. apply poll_gen_RInv. intros; rinv. Qed.
+#[export] Hint Resolve poll_RInv : rinv.
+
+Lemma campaign_pre_RInv r r' : campaign_pre r = Ok r' -> RInv r -> RInv r'.
+Proof.
+  unfold campaign_pre. intros H HI. inv_bind H. inv_bind H. destruct x0 as [r2 res].
+  assert (RInv r2) by rinv. crush H; rinv.
+Qed.
+#[export] Hint Resolve campaign_pre_RInv : rinv.
+
+Lemma hup_RInv r tl r' : hup r tl = Ok r' -> RInv r -> RInv r'.
+Proof. unfold hup. intros H HI. crush H; rinv. Qed.
+#[export] Hint Resolve hup_RInv : rinv.
+
+Lemma maybe_commit_by_vote_RInv r m r' : maybe_commit_by_vote r m = Ok r' -> RInv r -> RInv r'.
+Proof.
+  unfold maybe_commit_by_vote. intros H HI.
+  destruct ((m_commit m =? 0) || (m_commit_term m =? 0)); [inversion H; subst; exact HI|].
+  destruct ((m_commit m <=? committed (r_log r)) || is_leader r); [inversion H; subst; exact HI|].
+  inv_bind H. destruct x as [l' b].
+  assert (H1 : RInv (r <| r_log := l' |>)) by rinv.
+  crush H; rinv.
+Qed.
+#[export] Hint Resolve maybe_commit_by_vote_RInv : rinv.
+
+Lemma handle_ready_read_index_RInv r req i r' om :
+  handle_ready_read_index r req i = Ok (r', om) -> RInv r -> RInv r'.
+Proof. unfold handle_ready_read_index. intros H HI. crush H; rinv. Qed.
+#[export] Hint Resolve handle_ready_read_index_RInv : rinv.
+
+Lemma respond_reads_RInv rss : forall r r', respond_reads r rss = Ok r' -> RInv r -> RInv r'.
+Proof.
+  induction rss as [|rs rest IH]; intros r r' H HI; cbn [respond_reads] in H.
+  - inversion H; subst; exact HI.
+  - inv_bind H. destruct x as [r1 om]. inv_bind H. eapply IH; [exact H|].
+    assert (RInv r1) by rinv. destruct om; [rinv|inversion Hx0; subst; assumption].
+Qed.
+#[export] Hint Resolve respond_reads_RInv : rinv.
+
+Lemma send_timeout_now_RInv r to r' : send_timeout_now r to = Ok r' -> RInv r -> RInv r'.
+Proof. unfold send_timeout_now. rinv. Qed.
+#[export] Hint Resolve send_timeout_now_RInv : rinv.
+
+Lemma send_request_snapshot_RInv r r' : send_request_snapshot r = Ok r' -> RInv r -> RInv r'.
+Proof. unfold send_request_snapshot. intros H HI. crush H; rinv. Qed.
+#[export] Hint Resolve send_request_snapshot_RInv : rinv.
+
+Lemma handle_append_entries_RInv r m r' : handle_append_entries r m = Ok r' -> RInv r -> RInv r'.
+Proof.
+  unfold handle_append_entries. intros H HI.
+  destruct (negb (r_pending_request_snapshot r =? INVALID_INDEX)); [rinv|].
+  destruct (m_index m <? committed (r_log r)); [rinv|].
+  inv_bind H. destruct x as [l' res].
+  assert (H1 : RInv (r <| r_log := l' |>)) by rinv.
+  crush H; rinv.
+Qed.
+#[export] Hint Resolve handle_append_entries_RInv : rinv.
+
+Lemma handle_heartbeat_RInv r m r' : handle_heartbeat r m = Ok r' -> RInv r -> RInv r'.
+Proof.
+  unfold handle_heartbeat. intros H HI. inv_bind H.
+  assert (H1 : RInv (r <| r_log := x |>)) by rinv.
+  crush H; rinv.
+Qed.
+#[export] Hint Resolve handle_heartbeat_RInv : rinv.
+
+Lemma fresh_progress_PrsInv ids n mi : PrsInv (fresh_progress ids n mi).
+Proof.
+  unfold fresh_progress, PrsInv. induction ids as [|i t IH]; cbn [map]; constructor; [|exact IH].
+  cbn [snd]. rinv.
+Qed.
+
+Lemma apply_changes_PrsInv chs : forall m n mi, PrsInv m -> PrsInv (apply_changes m chs n mi).
+Proof.
+  induction chs as [|[id [|]] rest IH]; intros m n mi H; cbn [apply_changes]; [exact H| |].
+  - apply IH. apply pput_PrsInv; [exact H|rinv].
+  - apply IH. apply pdel_PrsInv. exact H.
+Qed.
+
+Lemma post_conf_change_RInv r r' cs : post_conf_change r = Ok (r', cs) -> RInv r -> RInv r'.
+Proof.
+  unfold post_conf_change. intros H HI.
+  set (r0 := r <| r_promotable := _ |>) in H.
+  assert (H0 : RInv r0) by (subst r0; rinv). clearbody r0.
+  match type of H with (if ?c then _ else _) = _ => destruct c end; [inversion H; subst; exact H0|].
+  match type of H with (if ?c then _ else _) = _ => destruct c end; [inversion H; subst; exact H0|].
+  inv_bind H. destruct x as [r1 b]. assert (H1 : RInv r1) by rinv.
+  inv_bind H. assert (H2 : RInv x).
+  { destruct b; [rinv|]. eapply for_each_peer_RInv; [|exact Hx0|exact H1].
+    intros ra id rb Hf Ha. cbv beta in Hf. destruct (get_pr ra id) as [pr|] eqn:Eg; [|discriminate].
+    inv_bind Hf. destruct x0 as [[rc prc] bc]. inversion Hf; subst. rinv. }
+  inv_bind H. assert (H3 : RInv x0).
+  { destruct (ro_last_pending_request_ctx (r_read_only x)) as [ctx|]; [|inversion Hx1; subst; exact H2].
+    destruct (ro_recv_ack (r_read_only x) (r_id x) ctx) as [ro' acks].
+    assert (RInv (x <| r_read_only := ro' |>)) by rinv.
+    destruct acks as [a|]; [|inversion Hx1; subst; assumption].
+    match type of Hx1 with (if ?c then _ else _) = _ => destruct c end;
+      [|inversion Hx1; subst; assumption].
+    inv_bind Hx1. destruct x1 as [ro2 rss].
+    eapply respond_reads_RInv; [exact Hx1|]. rinv. }
+  inversion H; subst.
+  destruct (r_lead_transferee x0); [|exact H3].
+  match goal with |- RInv (if ?c then _ else _) => destruct c end; rinv.
+Qed.
+#[export] Hint Resolve post_conf_change_RInv : rinv.
+
+Lemma restore_RInv r s r' b : restore r s = Ok (r', b) -> RInv r -> RInv r'.
+Proof.
+  unfold restore. intros H HI.
+  destruct (s_index s <? committed (r_log r)); [inversion H; subst; exact HI|].
+  destruct (negb (role_eqb (r_state r) Follower)).
+  { inv_bind H. inversion H; subst. rinv. }
+  match type of H with (if ?c then _ else _) = _ => destruct c end; [inversion H; subst; exact HI|].
+  inv_bind H.
+  match type of H with (if ?c then _ else _) = _ => destruct c end.
+  { inv_bind H. inversion H; subst. rinv. }
+  inv_bind H.
+  destruct (ConfChange.restore empty_tracker (s_cs s)) as [[c' ids']|e]; [|discriminate].
+  inv_bind H. destruct x1 as [r1 new_cs].
+  assert (H1 : RInv r1).
+  { eapply post_conf_change_RInv; [exact Hx1|]. unfold RInv, set_conf_prs. cbn.
+    apply fresh_progress_PrsInv. }
+  match type of H with (if ?c then _ else _) = _ => destruct c end; [discriminate|].
+  destruct (get_pr r1 (r_id r1)) as [pr|] eqn:Eg; [|discriminate].
+  destruct (next_idx pr =? 0); [discriminate|]. inversion H; subst.
+  assert (RInv (put_pr r1 (r_id r1) (fst (maybe_update pr (next_idx pr - 1))))) by rinv.
+  rinv.
+Qed.
+#[export] Hint Resolve restore_RInv : rinv.
+
+Lemma handle_snapshot_RInv r m r' : handle_snapshot r m = Ok r' -> RInv r -> RInv r'.
+Proof.
+  unfold handle_snapshot. intros H HI. inv_bind H. destruct x as [r1 ok].
+  assert (RInv r1) by rinv. destruct ok; rinv.
+Qed.
+#[export] Hint Resolve handle_snapshot_RInv : rinv.
+
+Lemma handle_append_response_RInv r m r' : handle_append_response r m = Ok r' -> RInv r -> RInv r'.
+Proof.
+  unfold handle_append_response. intros H HI. inv_bind H.
+  destruct (get_pr r (m_from m)) as [pr0|] eqn:Eg; [|inversion H; subst; exact HI].
+  assert (Hp0 : PrInv pr0) by rinv.
+  set (pr := update_committed (set_recent_active pr0 true) (m_commit m)) in H.
+  assert (Hp : PrInv pr) by (subst pr; rinv). clearbody pr.
+  destruct (m_reject m).
+  - destruct (maybe_decr_to pr (m_index m) x (m_request_snapshot m)) as [pr1 dec] eqn:Ed.
+    assert (Hp1 : PrInv pr1) by rinv.
+    destruct dec; [|inversion H; subst; rinv].
+    eapply send_append_to_RInv; [exact H|]. apply put_pr_RInv; [exact HI|].
+    destruct (pstate_eqb (pr_state pr1) Replicate); rinv.
+  - destruct (maybe_update pr (m_index m)) as [pr1 upd] eqn:Eu.
+    assert (Hp1 : PrInv pr1) by rinv.
+    destruct (negb upd); [inversion H; subst; rinv|].
+    inv_bind H. assert (Hp2 : PrInv x0).
+    { destruct (pr_state pr1).
+      - inversion Hx0; subst. rinv.
+      - inv_bind Hx0. inversion Hx0; subst. apply PrInv_set_ins.
+        eapply IInv_free_to; [exact Hp1|exact Hx1].
+      - inversion Hx0; subst. destruct (is_snapshot_caught_up pr1); rinv. }
+    inv_bind H. destruct x1 as [r1 cmt]. assert (H1 : RInv r1) by rinv.
+    inv_bind H. assert (H2 : RInv x1).
+    { destruct cmt; [destruct (should_bcast_commit r1); [rinv|inversion Hx2; subst; exact H1]|].
+      destruct (is_paused pr); [rinv|inversion Hx2; subst; exact H1]. }
+    inv_bind H. assert (H3 : RInv x2) by rinv.
+    crush H; rinv.
+Qed.
+#[export] Hint Resolve handle_append_response_RInv : rinv.
+
+Lemma handle_heartbeat_response_RInv r m r' :
+  handle_heartbeat_response r m = Ok r' -> RInv r -> RInv r'.
+Proof.
+  unfold handle_heartbeat_response. intros H HI.
+  destruct (get_pr r (m_from m)) as [pr0|] eqn:Eg; [|inversion H; subst; exact HI].
+  assert (Hp0 : PrInv pr0) by rinv.
+  set (pr := resume (set_recent_active (update_committed pr0 (m_commit m)) true)) in H.
+  assert (Hp : PrInv pr) by (subst pr; rinv). clearbody pr.
+  inv_bind H. assert (Hp1 : PrInv x).
+  { match type of Hx with (if ?c then _ else _) = _ => destruct c end;
+      [|inversion Hx; subst; exact Hp].
+    inv_bind Hx. inversion Hx; subst. apply PrInv_set_ins.
+    eapply IInv_free_first_one; [exact Hp|exact Hx0]. }
+  inv_bind H. assert (H1 : RInv x0).
+  { match type of Hx0 with (if ?c then _ else _) = _ => destruct c end;
+      [|inversion Hx0; subst; rinv].
+    inv_bind Hx0. destruct x1 as [[ra pra] ba]. inversion Hx0; subst. rinv. }
+  match type of H with (if ?c then _ else _) = _ => destruct c end; [inversion H; subst; exact H1|].
+  destruct (ro_recv_ack (r_read_only x0) (m_from m) (m_context m)) as [ro' acks].
+  assert (RInv (x0 <| r_read_only := ro' |>)) by rinv.
+  destruct acks as [a|]; [|inversion H; subst; assumption].
+  match type of H with (if ?c then _ else _) = _ => destruct c end; [|inversion H; subst; assumption].
+  inv_bind H. destruct x1 as [ro2 rss]. eapply respond_reads_RInv; [exact H|]. rinv.
+Qed.
+#[export] Hint Resolve handle_heartbeat_response_RInv : rinv.
+
+Lemma handle_transfer_leader_RInv r m r' : handle_transfer_leader r m = Ok r' -> RInv r -> RInv r'.
+Proof.
+  unfold handle_transfer_leader. intros H HI.
+  destruct (get_pr r (m_from m)) as [p0|]; [|inversion H; subst; exact HI].
+  destruct (IdSet.mem (m_from m) (learners (conf_of r))); [inversion H; subst; exact HI|].
+  assert (Hcont : forall ra, RInv ra ->
+    (if m_from m =? r_id ra then Ok ra else
+       let rb := ra <| r_election_elapsed := 0 |> <| r_lead_transferee := Some (m_from m) |> in
+       match get_pr rb (m_from m) with
+       | None => Panic site_pr_unwrap
+       | Some pr =>
+           if matched pr =? RaftLog.last_index (r_log rb) then send_timeout_now rb (m_from m)
+           else y <- maybe_send_append rb (m_from m) pr true ;;
+                let '(r', pr', _) := y in Ok (put_pr r' (m_from m) pr')
+       end) = Ok r' -> RInv r').
+  { intros ra Ha Hc. destruct (m_from m =? r_id ra); [inversion Hc; subst; exact Ha|].
+    cbv zeta in Hc.
+    set (rb := ra <| r_election_elapsed := 0 |> <| r_lead_transferee := Some (m_from m) |>) in Hc.
+    assert (Hb : RInv rb) by (subst rb; rinv). clearbody rb.
+    destruct (get_pr rb (m_from m)) as [pr|] eqn:Eg; [|discriminate].
+    destruct (matched pr =? RaftLog.last_index (r_log rb)); [rinv|].
+    inv_bind Hc. destruct x as [[rc prc] bc]. inversion Hc; subst. rinv. }
+  destruct (r_lead_transferee r) as [last|].
+  - destruct (last =? m_from m); [inversion H; subst; exact HI|].
+    apply (Hcont (r <| r_lead_transferee := None |>)); [rinv|exact H].
+  - apply (Hcont r HI H).
+Qed.
+#[export] Hint Resolve handle_transfer_leader_RInv : rinv.
+
+Lemma handle_snapshot_status_RInv r m r' : handle_snapshot_status r m = Ok r' -> RInv r -> RInv r'.
+Proof.
+  unfold handle_snapshot_status. intros H HI.
+  destruct (get_pr r (m_from m)) as [pr|] eqn:Eg; [|inversion H; subst; exact HI].
+  assert (PrInv pr) by rinv.
+  destruct (negb (pstate_eqb (pr_state pr) Snapshot)); [inversion H; subst; exact HI|].
+  inversion H; subst. destruct (m_reject m); rinv.
+Qed.
+#[export] Hint Resolve handle_snapshot_status_RInv : rinv.
+
+Lemma handle_unreachable_RInv r m r' : handle_unreachable r m = Ok r' -> RInv r -> RInv r'.
+Proof.
+  unfold handle_unreachable. intros H HI.
+  destruct (get_pr r (m_from m)) as [pr|] eqn:Eg; [|inversion H; subst; exact HI].
+  assert (PrInv pr) by rinv. inversion H; subst.
+  destruct (pstate_eqb (pr_state pr) Replicate); rinv.
+Qed.
+#[export] Hint Resolve handle_unreachable_RInv : rinv.
+
+Lemma filter_conf_changes_prs ents : forall r info i r' ents' ok,
+  filter_conf_changes r ents info i = (r', ents', ok) -> r_prs r' = r_prs r.
+Proof.
+  induction ents as [|e rest IH]; intros r info i r' ents' ok H; cbn [filter_conf_changes] in H.
+  - inversion H; reflexivity.
+  - destruct (negb (is_conf_entry e)).
+    + destruct (filter_conf_changes r rest _ (i + 1)) as [[ra ea] oa] eqn:E.
+      inversion H; subst. eapply IH; exact E.
+    + match type of H with (if ?c then _ else _) = _ => destruct c end; [inversion H; reflexivity|].
+      match type of H with (if ?c then _ else _) = _ => destruct c end.
+      * destruct (filter_conf_changes r rest _ (i + 1)) as [[ra ea] oa] eqn:E.
+        inversion H; subst. eapply IH; exact E.
+      * match type of H with context [filter_conf_changes ?r1 ?a ?b ?c] =>
+          destruct (filter_conf_changes r1 a b c) as [[ra ea] oa] eqn:E end.
+        inversion H; subst. rewrite (IH _ _ _ _ _ _ E). reflexivity.
+Qed.
+
+Lemma filter_conf_changes_RInv r ents info i r' ents' ok :
+  filter_conf_changes r ents info i = (r', ents', ok) -> RInv r -> RInv r'.
+Proof. intros H. apply RInv_same. rewrite (filter_conf_changes_prs _ _ _ _ _ _ _ H). reflexivity. Qed.
+#[export] Hint Resolve filter_conf_changes_RInv : rinv.
+
+Lemma quorum_recently_active_PrsInv t p t' b :
+  quorum_recently_active t p = (t', b) -> PrsInv (t_progress t) -> PrsInv (t_progress t').
+Proof.
+  unfold quorum_recently_active. intros H HI. inversion H; subst. cbn.
+  apply (PrsInv_map (fun kp => set_recent_active (snd kp) (fst kp =? p))); [|exact HI].
+  intros kp Hk. rinv.
+Qed.
+
+Lemma step_leader_RInv r m r' c : step_leader r m = Ok (r', c) -> RInv r -> RInv r'.
+Proof.
+  unfold step_leader. intros H HI.
+  destruct (m_type m =? MsgBeat). { crush H; rinv. }
+  destruct (m_type m =? MsgCheckQuorum).
+  { destruct (quorum_recently_active (r_prs r) (r_id r)) as [prs' active] eqn:Eq.
+    assert (H1 : RInv (r <| r_prs := prs' |>)).
+    { unfold RInv. cbn. eapply quorum_recently_active_PrsInv; [exact Eq|exact HI]. }
+    crush H; rinv. }
+  destruct (m_type m =? MsgPropose).
+  { destruct (m_entries m); [discriminate|].
+    destruct (get_pr r (r_id r)); [|inversion H; subst; exact HI].
+    destruct (r_lead_transferee r); [inversion H; subst; exact HI|].
+    match type of H with context [filter_conf_changes ?a ?b ?c ?d] =>
+      destruct (filter_conf_changes a b c d) as [[r1 ents] ok] eqn:Ef end.
+    assert (H1 : RInv r1) by rinv.
+    crush H; rinv. }
+  destruct (m_type m =? MsgReadIndex).
+  { inv_bind H. destruct (negb x); [inversion H; subst; exact HI|].
+    assert (Hans : forall ra c,
+      (x <- handle_ready_read_index r m (committed (r_log r)) ;;
+       (let '(r1, om) := x in
+        r2 <- match om with Some mm => send r1 mm | None => Ok r1 end ;; Ok (r2, E_OK))) = Ok (ra, c) ->
+      RInv ra).
+    { intros ra c0 Ha. inv_bind Ha. destruct x0 as [r1 om]. assert (RInv r1) by rinv.
+      inv_bind Ha. inversion Ha; subst. destruct om; [rinv|inversion Hx1; subst; assumption]. }
+    match type of H with (if ?c then _ else _) = _ => destruct c end; [eapply Hans; exact H|].
+    match type of H with (if ?c then _ else _) = _ => destruct c end; [|eapply Hans; exact H].
+    inv_bind H. inv_bind H. inv_bind H. inversion H; subst.
+    eapply bcast_heartbeat_with_ctx_RInv; [exact Hx2|]. rinv. }
+  crush H; rinv.
+Qed.
+#[export] Hint Resolve step_leader_RInv : rinv.
+
+Lemma step_candidate_RInv r m r' c : step_candidate r m = Ok (r', c) -> RInv r -> RInv r'.
+Proof.
+  unfold step_candidate. intros H HI.
+  destruct (m_type m =? MsgPropose); [inversion H; subst; exact HI|].
+  match type of H with (if ?c then _ else _) = _ => destruct c end.
+  { destruct (negb (r_term r =? m_term m)); [discriminate|].
+    inv_bind H. assert (RInv x) by rinv. inv_bind H. inversion H; subst.
+    destruct (m_type m =? MsgAppend); [rinv|]. destruct (m_type m =? MsgHeartbeat); rinv. }
+  match type of H with (if ?c then _ else _) = _ => destruct c end; [|inversion H; subst; exact HI].
+  match type of H with (if ?c then _ else _) = _ => destruct c end; [inversion H; subst; exact HI|].
+  inv_bind H. destruct x as [r1 res]. cbn [fst] in H. inv_bind H. inversion H; subst. rinv.
+Qed.
+#[export] Hint Resolve step_candidate_RInv : rinv.
+
+Lemma step_follower_RInv r m r' c : step_follower r m = Ok (r', c) -> RInv r -> RInv r'.
+Proof.
+  unfold step_follower. intros H HI.
+  assert (Hf : RInv (r <| r_election_elapsed := 0 |> <| r_leader_id := m_from m |>)) by rinv.
+  destruct (m_type m =? MsgPropose). { crush H; rinv. }
+  destruct (m_type m =? MsgAppend). { crush H; rinv. }
+  destruct (m_type m =? MsgHeartbeat). { crush H; rinv. }
+  destruct (m_type m =? MsgSnapshot). { crush H; rinv. }
+  destruct (m_type m =? MsgTransferLeader). { crush H; rinv. }
+  destruct (m_type m =? MsgTimeoutNow). { crush H; rinv. }
+  destruct (m_type m =? MsgReadIndex). { crush H; rinv. }
+  destruct (m_type m =? MsgReadIndexResp); [|inversion H; subst; exact HI].
+  destruct (m_entries m) as [|e [|e2 t]]; try (inversion H; subst; exact HI).
+  inv_bind H. inversion H; subst. rinv.
+Qed.
+#[export] Hint Resolve step_follower_RInv : rinv.
+
+Theorem step_RInv r m r' c : step r m = Ok (r', c) -> RInv r -> RInv r'.
+Proof.
+  unfold step. intros H HI. inv_bind H.
+  assert (Hpre : match x with inl (r1, _) => RInv r1 | inr r1 => RInv r1 end).
+  { clear H. destruct (m_term m =? 0); [inversion Hx; subst; exact HI|].
+    destruct (r_term r <? m_term m).
+    - match type of Hx with (if ?c then _ else _) = _ => destruct c end;
+        [inversion Hx; subst; exact HI|].
+      match type of Hx with (if ?c then _ else _) = _ => destruct c end;
+        [inversion Hx; subst; exact HI|].
+      match type of Hx with (if ?c then _ else _) = _ => destruct c end;
+        inv_bind Hx; inversion Hx; subst; rinv.
+    - destruct (m_term m <? r_term r); [|inversion Hx; subst; exact HI].
+      match type of Hx with (if ?c then _ else _) = _ => destruct c end;
+        [inv_bind Hx; inversion Hx; subst; rinv|].
+      match type of Hx with (if ?c then _ else _) = _ => destruct c end;
+        [inv_bind Hx; inversion Hx; subst; rinv|inversion Hx; subst; exact HI]. }
+  destruct x as [[r1 c1]|r1]; [inversion H; subst; exact Hpre|].
+  destruct (m_type m =? MsgHup). { crush H; rinv. }
+  match type of H with (if ?c then _ else _) = _ => destruct c end.
+  { inv_bind H. inv_bind H.
+    match type of H with (if ?c then _ else _) = _ => destruct c end.
+    - inv_bind H. assert (RInv x1) by rinv.
+      destruct (m_type m =? MsgRequestVote); inversion H; subst; rinv.
+    - inv_bind H. inv_bind H. inv_bind H. inversion H; subst. rinv. }
+  destruct (r_state r1); rinv.
+Qed.
+#[export] Hint Resolve step_RInv : rinv.
+
+(* ------------------------------------------------------------------ *)
+(* ticks and the rest of the Raft API *)
+
+Lemma tick_election_RInv r r' b : tick_election r = Ok (r', b) -> RInv r -> RInv r'.
+Proof.
+  unfold tick_election. intros H HI.
+  set (r0 := r <| r_election_elapsed := r_election_elapsed r + 1 |>) in H.
+  assert (H0 : RInv r0) by (subst r0; rinv). clearbody r0.
+  match type of H with (if ?c then _ else _) = _ => destruct c end; [inversion H; subst; exact H0|].
+  inv_bind H. destruct x as [r1 c]. inversion H; subst. cbn [fst].
+  eapply step_RInv; [exact Hx|]. rinv.
+Qed.
+#[export] Hint Resolve tick_election_RInv : rinv.
+
+Lemma tick_heartbeat_RInv r r' b : tick_heartbeat r = Ok (r', b) -> RInv r -> RInv r'.
+Proof.
+  unfold tick_heartbeat. intros H HI.
+  set (r0 := r <| r_heartbeat_elapsed := r_heartbeat_elapsed r + 1 |>
+               <| r_election_elapsed := r_election_elapsed r + 1 |>) in H.
+  assert (H0 : RInv r0) by (subst r0; rinv). clearbody r0.
+  inv_bind H. destruct x as [r1 hr].
+  assert (H1 : RInv r1).
+  { destruct (r_election_timeout r0 <=? r_election_elapsed r0); [|inversion Hx; subst; exact H0].
+    inv_bind Hx. destruct x as [ra ha].
+    assert (Ha : RInv ra).
+    { destruct (r_check_quorum (r0 <| r_election_elapsed := 0 |>)).
+      - inv_bind Hx0. destruct x as [rb cb]. inversion Hx0; subst. cbn [fst].
+        eapply step_RInv; [exact Hx1|]. rinv.
+      - inversion Hx0; subst. rinv. }
+    inversion Hx; subst.
+    match goal with |- RInv (if ?c then _ else _) => destruct c end; rinv. }
+  destruct (negb (is_leader r1)); [inversion H; subst; exact H1|].
+  destruct (r_heartbeat_timeout r1 <=? r_heartbeat_elapsed r1); [|inversion H; subst; exact H1].
+  inv_bind H. destruct x as [rb cb]. inversion H; subst. cbn [fst].
+  eapply step_RInv; [exact Hx0|]. rinv.
+Qed.
+#[export] Hint Resolve tick_heartbeat_RInv : rinv.
+
+Theorem tick_RInv r r' b : tick r = Ok (r', b) -> RInv r -> RInv r'.
+Proof. unfold tick. destruct (r_state r); rinv. Qed.
+#[export] Hint Resolve tick_RInv : rinv.
+
+Theorem on_persist_entries_RInv r i t r' : on_persist_entries r i t = Ok r' -> RInv r -> RInv r'.
+Proof.
+  unfold on_persist_entries. intros H HI. inv_bind H. destruct x as [l' upd].
+  set (r0 := r <| r_log := l' |>) in H. assert (H0 : RInv r0) by (subst r0; rinv). clearbody r0.
+  destruct (upd && is_leader r0); [|inversion H; subst; exact H0].
+  destruct (get_pr r0 (r_id r0)) as [pr|] eqn:Eg; [|inversion H; subst; exact H0].
+  destruct (maybe_update pr i) as [pr' u] eqn:Eu.
+  assert (H1 : RInv (put_pr r0 (r_id r0) pr')) by rinv.
+  destruct u; [|inversion H; subst; exact H1].
+  inv_bind H. destruct x as [r1 c]. assert (RInv r1) by rinv.
+  destruct (c && should_bcast_commit r1); [rinv|inversion H; subst; assumption].
+Qed.
+
+Theorem on_persist_snap_RInv r i r' : on_persist_snap r i = Ok r' -> RInv r -> RInv r'.
+Proof. unfold on_persist_snap. intros H HI. inv_bind H. inversion H; subst. rinv. Qed.
+
+Theorem commit_apply_internal_RInv r a sk r' :
+  commit_apply_internal r a sk = Ok r' -> RInv r -> RInv r'.
+Proof.
+  unfold commit_apply_internal. intros H HI. inv_bind H.
+  set (r0 := r <| r_log := x |>) in H. assert (H0 : RInv r0) by (subst r0; rinv). clearbody r0.
+  match type of H with (if ?c then _ else _) = _ => destruct c end; [|inversion H; subst; exact H0].
+  inv_bind H. destruct x0 as [r1 ok]. assert (RInv r1) by rinv.
+  destruct (negb ok); [discriminate|]. inversion H; subst. rinv.
+Qed.
+
+Theorem commit_apply_RInv r a r' : commit_apply r a = Ok r' -> RInv r -> RInv r'.
+Proof. unfold commit_apply. apply commit_apply_internal_RInv. Qed.
+
+Theorem raft_apply_conf_change_RInv r cc r' ocs :
+  raft_apply_conf_change r cc = Ok (r', ocs) -> RInv r -> RInv r'.
+Proof.
+  unfold raft_apply_conf_change. intros H HI.
+  match type of H with (match ?res with _ => _ end) = _ => destruct res as [[c' chs]|e] end;
+    [|inversion H; subst; exact HI].
+  inv_bind H. destruct x as [r1 cs]. inversion H; subst. cbn [fst].
+  eapply post_conf_change_RInv; [exact Hx|]. unfold RInv, set_conf_prs. cbn.
+  apply apply_changes_PrsInv. exact HI.
+Qed.
+
+Theorem load_state_RInv r hs r' : load_state r hs = Ok r' -> RInv r -> RInv r'.
+Proof. unfold load_state. intros H HI. crush H; rinv. Qed.
+
+Theorem request_snapshot_RInv r r' c : request_snapshot r = Ok (r', c) -> RInv r -> RInv r'.
+Proof.
+  unfold request_snapshot. intros H HI.
+  destruct (is_leader r); [inversion H; subst; exact HI|].
+  destruct (r_leader_id r =? INVALID_ID); [inversion H; subst; exact HI|].
+  match type of H with (if ?c then _ else _) = _ => destruct c end; [inversion H; subst; exact HI|].
+  match type of H with (if ?c then _ else _) = _ => destruct c end; [inversion H; subst; exact HI|].
+  inv_bind H. destruct x as [rt|e]; [|discriminate].
+  destruct (r_term r =? rt); [|inversion H; subst; exact HI].
+  inv_bind H. inversion H; subst. eapply send_request_snapshot_RInv; [exact Hx0|]. rinv.
+Qed.
+
+Theorem ping_RInv r r' : ping r = Ok r' -> RInv r -> RInv r'.
+Proof. unfold ping. intros H HI. destruct (is_leader r); [rinv|inversion H; subst; exact HI]. Qed.
+
+(* runtime window resizing keeps the invariant *)
+Theorem adjust_max_inflight_msgs_RInv r target c r' :
+  adjust_max_inflight_msgs r target c = Ok r' -> RInv r -> RInv r'.
+Proof.
+  unfold adjust_max_inflight_msgs. intros H HI.
+  destruct (get_pr r target) as [pr|] eqn:Eg; [|inversion H; subst; exact HI].
+  assert (Hp : PrInv pr) by rinv. inv_bind H. inversion H; subst.
+  apply put_pr_RInv; [exact HI|]. apply PrInv_set_ins. eapply IInv_set_cap; [exact Hp|exact Hx].
+Qed.
+
+Theorem maybe_free_inflight_buffers_RInv r : RInv r -> RInv (maybe_free_inflight_buffers r).
+Proof.
+  unfold maybe_free_inflight_buffers, RInv. cbn. intros HI.
+  apply (PrsInv_map (fun kp => set_ins (snd kp) (Inflights.maybe_free_buffer (ins (snd kp)))));
+    [|exact HI].
+  intros kp Hk. apply PrInv_set_ins. apply IInv_maybe_free_buffer. exact Hk.
+Qed.
+
+Theorem set_max_apply_unpersisted_log_limit_RInv r lim :
+  RInv r -> RInv (set_max_apply_unpersisted_log_limit r lim).
+Proof. unfold set_max_apply_unpersisted_log_limit. intros; rinv. Qed.
+
+Theorem enable_group_commit_RInv r e r' : enable_group_commit r e = Ok r' -> RInv r -> RInv r'.
+Proof.
+  unfold enable_group_commit. intros H HI.
+  set (r0 := r <| r_prs := _ |>) in H. assert (H0 : RInv r0) by (subst r0; rinv). clearbody r0.
+  destruct (is_leader r0 && negb e); [|inversion H; subst; exact H0].
+  inv_bind H. destruct x as [r1 b]. cbn [fst snd] in H. assert (RInv r1) by rinv.
+  destruct b; [rinv|inversion H; subst; assumption].
+Qed.
+
+Lemma assign_groups_PrsInv ids : forall m m', assign_groups m ids = Ok m' -> PrsInv m -> PrsInv m'.
+Proof.
+  induction ids as [|[peer g] rest IH]; intros m m' H HI; cbn [assign_groups] in H.
+  - inversion H; subst; exact HI.
+  - destruct (g =? 0); [discriminate|].
+    destruct (pget m peer) as [pr|] eqn:Eg; [|eapply IH; eassumption].
+    eapply IH; [exact H|]. apply pput_PrsInv; [exact HI|].
+    apply PrInv_set_commit_group_id. eapply pget_PrInv; eassumption.
+Qed.
+
+Theorem assign_commit_groups_RInv r ids r' : assign_commit_groups r ids = Ok r' -> RInv r -> RInv r'.
+Proof.
+  unfold assign_commit_groups. intros H HI. inv_bind H.
+  set (r0 := r <| r_prs := _ |>) in H.
+  assert (H0 : RInv r0).
+  { subst r0. unfold RInv. cbn. eapply assign_groups_PrsInv; [exact Hx|exact HI]. }
+  clearbody r0.
+  match type of H with (if ?c then _ else _) = _ => destruct c end; [|inversion H; subst; exact H0].
+  inv_bind H. destruct x0 as [r1 b]. cbn [fst snd] in H. assert (RInv r1) by rinv.
+  destruct b; [rinv|inversion H; subst; assumption].
+Qed.
+
+(* ------------------------------------------------------------------ *)
+(* RawNode wrappers *)
+From RV Require Import M.RawNode.
+
+Definition NInv (n : rawnode) : Prop := RInv (rn_raft n).
+
+Lemma lift_NInv n x n' : lift n x = Ok n' -> (forall r, x = Ok r -> RInv r) -> NInv n'.
+Proof.
+  unfold lift. intros H Hq. destruct x as [r|s]; cbn in H; [|discriminate].
+  inversion H; subst. apply Hq. reflexivity.
+Qed.
+
+Lemma lift2_NInv n x n' c :
+  lift2 n x = Ok (n', c) -> (forall r c, x = Ok (r, c) -> RInv r) -> NInv n'.
+Proof.
+  unfold lift2. intros H Hq. destruct x as [[r c0]|s]; cbn in H; [|discriminate].
+  inversion H; subst. eapply Hq. reflexivity.
+Qed.
+
+Theorem rn_step_NInv n m n' c : rn_step n m = Ok (n', c) -> NInv n -> NInv n'.
+Proof.
+  unfold rn_step. intros H HI.
+  destruct (is_local_msg (m_type m)); [inversion H; subst; exact HI|].
+  match type of H with (if ?c then _ else _) = _ => destruct c end; [|inversion H; subst; exact HI].
+  eapply lift2_NInv; [exact H|]. intros r c0 E. eapply step_RInv; [exact E|exact HI].
+Qed.
+
+Theorem rn_tick_NInv n n' b : rn_tick n = Ok (n', b) -> NInv n -> NInv n'.
+Proof.
+  unfold rn_tick. intros H HI. inv_bind H. destruct x as [r b0]. inversion H; subst.
+  unfold NInv. cbn. eapply tick_RInv; [exact Hx|exact HI].
+Qed.
+
+Theorem rn_campaign_NInv n n' c : rn_campaign n = Ok (n', c) -> NInv n -> NInv n'.
+Proof.
+  unfold rn_campaign. intros H HI. eapply lift2_NInv; [exact H|].
+  intros r c0 E. eapply step_RInv; [exact E|exact HI].
+Qed.
+
+Theorem rn_propose_NInv n ctx data n' c : rn_propose n ctx data = Ok (n', c) -> NInv n -> NInv n'.
+Proof.
+  unfold rn_propose. intros H HI. eapply lift2_NInv; [exact H|].
+  intros r c0 E. eapply step_RInv; [exact E|exact HI].
+Qed.
+
+Theorem rn_propose_conf_change_NInv n ctx data ty ci n' c :
+  rn_propose_conf_change n ctx data ty ci = Ok (n', c) -> NInv n -> NInv n'.
+Proof.
+  unfold rn_propose_conf_change. intros H HI. eapply lift2_NInv; [exact H|].
+  intros r c0 E. eapply step_RInv; [exact E|exact HI].
+Qed.
+
+Theorem rn_apply_conf_change_NInv n cc n' o :
+  rn_apply_conf_change n cc = Ok (n', o) -> NInv n -> NInv n'.
+Proof.
+  unfold rn_apply_conf_change. intros H HI. inv_bind H. destruct x as [r o0]. inversion H; subst.
+  unfold NInv. cbn. eapply raft_apply_conf_change_RInv; [exact Hx|exact HI].
+Qed.
+
+Theorem rn_ping_NInv n n' : rn_ping n = Ok n' -> NInv n -> NInv n'.
+Proof.
+  unfold rn_ping. intros H HI. eapply lift_NInv; [exact H|].
+  intros r E. eapply ping_RInv; [exact E|exact HI].
+Qed.
+
+Lemma gen_light_ready_NInv n n' lr : gen_light_ready n = Ok (n', lr) -> NInv n -> NInv n'.
+Proof.
+  unfold gen_light_ready. intros H HI. inv_bind H. inv_bind H. inversion H; subst.
+  unfold NInv. cbn.
+  assert (K : RInv (reduce_uncommitted_size (rn_raft n) match x with Some v => v | None => [] end))
+    by (apply reduce_uncommitted_size_RInv; exact HI).
+  exact K.
+Qed.
+
+Theorem rn_ready_NInv n n' rd : rn_ready n = Ok (n', rd) -> NInv n -> NInv n'.
+Proof.
+  unfold rn_ready. intros H HI. inv_bind H. inv_bind H.
+  destruct x0 as [[[snap csi] rec_snap] ms2]. inv_bind H. destruct x0 as [n2 light].
+  inversion H; subst. unfold NInv. cbn.
+  eapply gen_light_ready_NInv in Hx1; [exact Hx1|]. unfold NInv. cbn. exact HI.
+Qed.
+
+Lemma commit_ready_NInv n rd n' : commit_ready n rd = Ok n' -> NInv n -> NInv n'.
+Proof.
+  unfold commit_ready. intros H HI.
+  set (n0 := match rd_ss rd with Some ss => n <| rn_prev_ss := ss |> | None => n end) in H.
+  assert (H0 : NInv n0) by (subst n0; destruct (rd_ss rd); exact HI). clearbody n0.
+  set (n1 := match rd_hs rd with Some hs => n0 <| rn_prev_hs := hs |> | None => n0 end) in H.
+  assert (H1 : NInv n1) by (subst n1; destruct (rd_hs rd); exact H0). clearbody n1.
+  destruct (rn_records n1); [discriminate|].
+  match type of H with (if ?c then _ else _) = _ => destruct c end; [discriminate|].
+  inv_bind H. inv_bind H. inversion H; subst. unfold NInv in *. cbn. rinv.
+Qed.
+
+Theorem rn_advance_append_async_NInv n rd n' :
+  rn_advance_append_async n rd = Ok n' -> NInv n -> NInv n'.
+Proof. apply commit_ready_NInv. Qed.
+
+Theorem rn_on_persist_ready_NInv n num n' : rn_on_persist_ready n num = Ok n' -> NInv n -> NInv n'.
+Proof.
+  unfold rn_on_persist_ready. intros H HI.
+  destruct (fold_records (rn_records n) num 0 0 0) as [[[recs index] t] snap_index].
+  inv_bind H. inv_bind H. inversion H; subst. unfold NInv in *. cbn in *.
+  assert (H1 : RInv x).
+  { destruct (negb (snap_index =? 0)); [eapply on_persist_snap_RInv; eassumption|].
+    inversion Hx; subst. exact HI. }
+  destruct (negb (index =? 0)); [eapply on_persist_entries_RInv; eassumption|].
+  inversion Hx0; subst. exact H1.
+Qed.
+
+Theorem rn_advance_append_NInv n rd n' lr : rn_advance_append n rd = Ok (n', lr) -> NInv n -> NInv n'.
+Proof.
+  unfold rn_advance_append. intros H HI. inv_bind H. inv_bind H. inv_bind H.
+  destruct x1 as [n3 light].
+  assert (H3 : NInv n3).
+  { eapply gen_light_ready_NInv; [exact Hx1|]. eapply rn_on_persist_ready_NInv; [exact Hx0|].
+    eapply commit_ready_NInv; eassumption. }
+  match type of H with (if ?c then _ else _) = _ => destruct c end; [discriminate|].
+  inv_bind H. destruct x1 as [n4 ci].
+  assert (H4 : NInv n4).
+  { match type of Hx2 with (if ?c then _ else _) = _ => destruct c end;
+      [inversion Hx2; subst; exact H3|].
+    match type of Hx2 with (if ?c then _ else _) = _ => destruct c end; [discriminate|].
+    inversion Hx2; subst; exact H3. }
+  match type of H with (if ?c then _ else _) = _ => destruct c end; [discriminate|].
+  inversion H; subst. exact H4.
+Qed.
+
+Theorem rn_advance_apply_to_NInv n a n' : rn_advance_apply_to n a = Ok n' -> NInv n -> NInv n'.
+Proof.
+  unfold rn_advance_apply_to. intros H HI. eapply lift_NInv; [exact H|].
+  intros r E. eapply commit_apply_RInv; [exact E|exact HI].
+Qed.
+
+Theorem rn_advance_apply_NInv n n' : rn_advance_apply n = Ok n' -> NInv n -> NInv n'.
+Proof. unfold rn_advance_apply. apply rn_advance_apply_to_NInv. Qed.
+
+Theorem rn_advance_NInv n rd n' lr : rn_advance n rd = Ok (n', lr) -> NInv n -> NInv n'.
+Proof.
+  unfold rn_advance. intros H HI. inv_bind H. destruct x as [n1 l1]. cbn [fst snd] in H.
+  inv_bind H. inversion H; subst.
+  eapply rn_advance_apply_to_NInv; [exact Hx0|]. eapply rn_advance_append_NInv; eassumption.
+Qed.
+
+Theorem rn_report_unreachable_NInv n id n' : rn_report_unreachable n id = Ok n' -> NInv n -> NInv n'.
+Proof.
+  unfold rn_report_unreachable. intros H HI. inv_bind H. destruct x as [r c]. inversion H; subst.
+  unfold NInv. cbn. eapply step_RInv; [exact Hx|exact HI].
+Qed.
+
+Theorem rn_report_snapshot_NInv n id f n' : rn_report_snapshot n id f = Ok n' -> NInv n -> NInv n'.
+Proof.
+  unfold rn_report_snapshot. intros H HI. inv_bind H. destruct x as [r c]. inversion H; subst.
+  unfold NInv. cbn. eapply step_RInv; [exact Hx|exact HI].
+Qed.
+
+Theorem rn_request_snapshot_NInv n n' c : rn_request_snapshot n = Ok (n', c) -> NInv n -> NInv n'.
+Proof.
+  unfold rn_request_snapshot. intros H HI. eapply lift2_NInv; [exact H|].
+  intros r c0 E. eapply request_snapshot_RInv; [exact E|exact HI].
+Qed.
+
+Theorem rn_transfer_leader_NInv n t n' : rn_transfer_leader n t = Ok n' -> NInv n -> NInv n'.
+Proof.
+  unfold rn_transfer_leader. intros H HI. inv_bind H. destruct x as [r c]. inversion H; subst.
+  unfold NInv. cbn. eapply step_RInv; [exact Hx|exact HI].
+Qed.
+
+Theorem rn_read_index_NInv n ctx n' : rn_read_index n ctx = Ok n' -> NInv n -> NInv n'.
+Proof.
+  unfold rn_read_index. intros H HI. inv_bind H. destruct x as [r c]. inversion H; subst.
+  unfold NInv. cbn. eapply step_RInv; [exact Hx|exact HI].
+Qed.
+
+(* what the invariant gives, for every tracked peer *)
+Theorem RInv_window_bound r id pr :
+  RInv r -> get_pr r id = Some pr ->
+  (Inflights.count (ins pr) <= Inflights.cap (ins pr))%nat /\
+  Inflights.count (ins pr) = length (iabs (ins pr)).
+Proof.
+  intros HI Hg. pose proof (get_pr_PrInv _ _ _ HI Hg) as Hp.
+  split; [apply IInv_count_le_cap; exact Hp|apply count_abs].
+Qed.
+
+(* ================================================================== *)
+(* 9. MsgPropose on a leader: when it is refused                        *)
+(* ================================================================== *)
+
+Lemma filter_conf_changes_state ents : forall r info i r' ents' ok,
+  filter_conf_changes r ents info i = (r', ents', ok) ->
+  r' = r \/ exists j, r' = r <| r_pending_conf_index := j |>.
+Proof.
+  induction ents as [|e rest IH]; intros r info i r' ents' ok H; cbn [filter_conf_changes] in H.
+  - inversion H; auto.
+  - destruct (negb (is_conf_entry e)).
+    + destruct (filter_conf_changes r rest _ (i + 1)) as [[ra ea] oa] eqn:E.
+      inversion H; subst. eapply IH; exact E.
+    + match type of H with (if ?c then _ else _) = _ => destruct c end; [inversion H; auto|].
+      match type of H with (if ?c then _ else _) = _ => destruct c end.
+      * destruct (filter_conf_changes r rest _ (i + 1)) as [[ra ea] oa] eqn:E.
+        inversion H; subst. eapply IH; exact E.
+      * match type of H with context [filter_conf_changes ?r1 ?a ?b ?c] =>
+          destruct (filter_conf_changes r1 a b c) as [[ra ea] oa] eqn:E end.
+        inversion H; subst. right.
+        destruct (IH _ _ _ _ _ _ E) as [->|(j & ->)]; eexists; reflexivity.
+Qed.
+
+Lemma append_entry_refused r es r' :
+  append_entry r es = Ok (r', false) ->
+  snd (maybe_increase_uncommitted_size r es) = false /\ r' = r.
+Proof.
+  unfold append_entry. intros H.
+  destruct (maybe_increase_uncommitted_size r es) as [r1 ok] eqn:E.
+  destruct ok; cbn [negb] in H.
+  - inv_bind H. discriminate.
+  - inversion H; subst. split; [reflexivity|].
+    destruct (uncommitted_effect _ _ _ _ E) as (A & _). apply A. reflexivity.
+Qed.
+
+Lemma append_entry_accepted r es r' :
+  append_entry r es = Ok (r', true) -> snd (maybe_increase_uncommitted_size r es) = true.
+Proof.
+  unfold append_entry. intros H.
+  destruct (maybe_increase_uncommitted_size r es) as [r1 ok] eqn:E.
+  destruct ok; [reflexivity|]. cbn [negb] in H. discriminate.
+Qed.
+
+(* Theorem 7: a proposal stepped on a leader is dropped exactly when the leader
+   is not tracked, a transfer is pending, a conf-change entry does not decode,
+   or the uncommitted-size limit refuses it; a dropped proposal queues nothing,
+   appends nothing and leaves the uncommitted size alone (only
+   pending_conf_index can have moved) *)
+Theorem step_leader_propose_refused_iff r m r' c :
+  m_type m = MsgPropose -> step_leader r m = Ok (r', c) ->
+  let f := filter_conf_changes r (m_entries m) (m_ccinfo m) 0 in
+  (c = E_OK \/ c = E_PROPOSAL_DROPPED) /\
+  (c = E_PROPOSAL_DROPPED <->
+     get_pr r (r_id r) = None \/ r_lead_transferee r <> None \/ snd f = false \/
+     snd (maybe_increase_uncommitted_size (fst (fst f)) (snd (fst f))) = false) /\
+  (c = E_PROPOSAL_DROPPED -> r' = r \/ exists j, r' = r <| r_pending_conf_index := j |>).
+Proof.
+  intros Ht H. cbv zeta. unfold step_leader in H. rewrite Ht in H.
+  change (MsgPropose =? MsgBeat) with false in H.
+  change (MsgPropose =? MsgCheckQuorum) with false in H.
+  change (MsgPropose =? MsgPropose) with true in H. cbv iota in H.
+  destruct (m_entries m) as [|e0 et] eqn:Em; [discriminate|]. rewrite <- Em in *.
+  destruct (get_pr r (r_id r)) as [p|] eqn:Eg.
+  2:{ inversion H; subst. split; [right; reflexivity|]. split; [split; auto|]. auto. }
+  destruct (r_lead_transferee r) as [tr|] eqn:El.
+  { inversion H; subst. split; [right; reflexivity|]. split; [|auto].
+    split; [intros _; right; left; discriminate|reflexivity]. }
+  destruct (filter_conf_changes r (m_entries m) (m_ccinfo m) 0) as [[r1 ents] ok] eqn:Ef.
+  cbn [fst snd].
+  pose proof (filter_conf_changes_state _ _ _ _ _ _ _ Ef) as Hst.
+  destruct ok; cbn [negb] in H.
+  2:{ inversion H; subst. split; [right; reflexivity|]. split; [|auto].
+      split; [intros _; right; right; left; reflexivity|reflexivity]. }
+  inv_bind H. destruct x as [r2 appended]. destruct appended; cbn [negb] in H.
+  - inv_bind H. inversion H; subst. split; [left; reflexivity|].
+    pose proof (append_entry_accepted _ _ _ Hx) as Ha.
+    split; [|discriminate]. split; [discriminate|].
+    intros [A|[A|[A|A]]]; try congruence.
+  - inversion H; subst. destruct (append_entry_refused _ _ _ Hx) as (Ha & ->).
+    split; [right; reflexivity|]. split; [|auto].
+    split; [intros _; right; right; right; exact Ha|reflexivity].
+Qed.
